@@ -35,6 +35,10 @@ structure Sock where
   rport : Nat
   state : Nat             -- sk_state; TCP: 1..11 (include/net/tcp_states.h)
   path : Option Bytes     -- UNIX: the bound name as the kernel shows it ('@' for NUL); none = unbound
+  /-- `sock_i_ino(sk)` as printed. NOT a key: the kernel prints 0 for every socket without a `struct socket` —
+      TIME_WAIT / SYN_RECV / orphaned TCP sockets in net/tcp{,6} and UNIX connections still queued on a listener (not
+      yet `accept()`ed) in net/unix — so lines of one table and of DIFFERENT tables may show the same number
+      (`World.WF` has no clause about it). Every such line is a socket of its own; `holders` goes by the number. -/
   inode : Nat
   -- columns psutil must not look at
   txq : Nat
